@@ -122,6 +122,7 @@ pub fn main() -> i32 {
         "run" => cmd_run(&args),
         "replay" => cmd_replay(&args),
         "selftest" => cmd_selftest(&args),
+        "t7child" => Ok(crate::t7::child_main(&args)),
         other => Err(SimError::Harness(format!("unknown command {other}"))),
     };
     match res {
@@ -167,6 +168,7 @@ pub fn run_one(tier: &str, check: &str, seed: u64, tmp: &Path, log: Option<&mut 
             crate::t3::install_metrics();
             with_runtime(crate::t3::run_generated(seed, tmp))
         }
+        "t7" => crate::t7::run_batch(seed, 0, 4000),
         "t5" => {
             let (rt, h) = t5_env(tmp)?;
             let clients = crate::t5::generate(seed);
@@ -203,6 +205,12 @@ pub fn run_list(
                 .map(|e| serde_json::from_value(e.clone()))
                 .collect::<Result<_, _>>()?;
             with_runtime(crate::t3::run_events(seed, cfg, &evs, tmp, tag))
+        }
+        "t7" => {
+            let Some(k) = events.first().and_then(|e| e.get("case")).and_then(|c| c.as_u64()) else {
+                return crate::t7::run_batch(seed, 0, 0);
+            };
+            crate::t7::run_batch(seed, k, 1)
         }
         "t5" => {
             let (rt, h) = t5_env(tmp)?;
